@@ -67,3 +67,21 @@ REG.contract(
          "changes; otherwise the record is a member, a singleton type replaces the old content, the TTL is the minimum, "
          "and the covered type is adopted only by an empty set that declared none (modular over the Set.add contract)",
 )
+
+# ---- in-place union / intersection / update: TTL minimisation first, then the set operation (modular over dns.set.Set)
+_TTLMIN = "self.ttl == (other.ttl if (len(old_self.items) == 0 or other.ttl < old_self.ttl) else old_self.ttl)"
+_UNION = ["all(k in self.items for k in old_self.items)", "all(k in self.items for k in other.items)",
+          "all((k in old_self.items) or (k in other.items) for k in self.items)"]
+_INTER = ["all((k in old_self.items) and (k in other.items) for k in self.items)",
+          "all((not (k in other.items)) or (k in self.items) for k in old_self.items)"]
+for _name, _post in (("union_update", _UNION), ("update", _UNION), ("intersection_update", _INTER)):
+    REG.contract(
+        f"dns.rdataset.Rdataset.{_name}",
+        params={"self": RDS, "other": RDS},
+        modifies={"self.items": T.map_of(T.int, T.none), "self.ttl": None},
+        raises=[],
+        ensures=[_TTLMIN] + _post + ["self.covers == old_self.covers and self.rdtype == old_self.rdtype"],
+        props=["C07", "C10"],
+        note=f"Rdataset.{_name} (two distinct rdatasets): the TTL becomes the minimum (an empty set takes the other's), the members are "
+             "the set-theoretic result",
+    )
